@@ -102,10 +102,33 @@ func Decide(t fataler, s *graph.Scenario, obsOrders []int, tag string) {
 			}
 		}
 	}
+	// the Init (or AfterPropertiesSet) of one eager component panics half way: whatever becomes of the panic, the start
+	// does not go on as if that component had been initialised
+	panicky := -1
+	if strings.Contains(tag, "+initpanic") {
+		for i, n := range s.Nodes {
+			if n.Variant != 'L' && n.Variant != 'Y' && !readyMade[i] && i != veto {
+				if (i+len(s.Nodes))%2 == 0 {
+					in.Behs[i].FailInit = zoo.FailPanic
+				} else {
+					in.Behs[i].FailAPS = zoo.FailPanic
+				}
+				panicky = i
+				break
+			}
+		}
+	}
 	in.Run()
 	desc := fmt.Sprintf("%s %s obs=%v", tag, s.Shape(), obsOrders)
+	if _, injected := in.Out.Panic.(zoo.InjectedPanic); injected && panicky >= 0 {
+		kit.Rec.Case(desc, false, "user-panic-propagated")
+		return
+	}
 	if in.Out.Panic != nil {
 		t.Fatalf("C05: start-up panicked: %v\n%s", in.Out.Panic, desc)
+	}
+	if panicky >= 0 && in.Out.Err == nil && (in.Behs[panicky].InitCalls > 0 || in.Behs[panicky].APSCalls > 0) {
+		t.Fatalf("C05: an initialization method of eager component %d panicked, yet Run returned nil: the component is published although its initialization never completed\n%s", panicky, desc)
 	}
 	if veto >= 0 && in.Out.Err == nil && in.Behs[veto].InitCalls == 0 {
 		t.Fatalf("C05: a before-initialization callback reported an error for eager component %d; the start succeeded all the same and the component was published without ever being initialised (its dependants' Init ran against it)\n%s", veto, desc)
@@ -457,6 +480,9 @@ func TestLifecycle(t *testing.T) {
 		}
 		if rapid.IntRange(0, 7).Draw(t, "veto") == 0 {
 			tag += "+veto"
+		}
+		if rapid.IntRange(0, 9).Draw(t, "initpanic") == 0 {
+			tag += "+initpanic"
 		}
 		Decide(t, s, genObs(t), tag)
 	})
